@@ -49,6 +49,18 @@ pub fn run(ctx: &Ctx, reg: &Registry, rep: &mut Report) {
             run_plans(ctx, reg, plans, rep);
         }
         "C04" => quire::run_c04(ctx, rep),
+        "C11" => {
+            match crate::ops_misc::tables() {
+                None => rep.harness_errors.push(
+                    "reference tables not found: set SPVERIF_TABLES to the directory holding <fn>_p16.bin / <fn>_p8.bin".into(),
+                ),
+                Some(t) => {
+                    rep.extra.set("tables_dir", crate::json::J::s(&t.dir));
+                    let plans = sweep::plan_for(reg, "C11", 16.0, 1);
+                    run_plans(ctx, reg, plans, rep);
+                }
+            }
+        }
         "C19" => rngmon::run(ctx, reg, rep),
         "C18" => poly::run(ctx, rep),
         "C12" => {
